@@ -71,6 +71,9 @@ var NumberSpellings = []Number{
 	// a zero integer part cannot be a digit group: the mark is a decimal mark
 	Num("0.125", "1/8"),
 	Num("0,125", "1/8"),
+	// exponent after a single mark and exactly one digit: "5E2" is not a digit group
+	Num("1.5E2", "150"),
+	Num("2,5e2", "250"),
 }
 
 type symSpec struct {
@@ -93,6 +96,7 @@ var CommoditySpecs = []symSpec{
 	{"rub-right-nogap", "₽", false, SideRight, 0},
 	{"USD-right-nogap", "USD", false, SideRight, 0},
 	{"USD-right-2gap", "USD", false, SideRight, 2},
+	{"word-nonascii-right", "руб", false, SideRight, 1},
 }
 
 var DescShapes = []string{"Capitalised Words", "ALLCAPS", "7leading digit", "with:colon", "pay $5", "a=b", "naïve café", "🍕 pizza", "two  spaces"}
@@ -145,6 +149,8 @@ func DirectiveEntries() map[string]Entry {
 		"commodity-space":         {Kind: EntryCommodity, Sym: "USD", Format: "1 000.00 USD"},
 		"commodity-quoted":        {Kind: EntryCommodity, Sym: "x y", Quoted: true, Format: `1,000.00 "x y"`},
 		"commodity-fmt":           {Kind: EntryCommodityFmt, Sym: "EUR", Format: "1.000,00 EUR"},
+		"commodity-fmt-comment":   {Kind: EntryCommodityFmt, Sym: "EUR", Format: "1.000,00 EUR", FmtComment: " the format", SubNote: "euro"},
+		"commodity-fmt-note":      {Kind: EntryCommodityFmt, Sym: "EUR", Format: "1.000,00 EUR", SubNote: "euro"},
 		"account-trailing-blank":  {Kind: EntryAccount, Account: "assets:cash", Trail: " "},
 		"commodity-nonascii":      {Kind: EntryCommodity, Sym: "руб", Format: "1.000,00 руб", Trail: "  "},
 		"commodity-trailing-tab":  {Kind: EntryCommodity, Sym: "EUR", Format: "1.000,00 EUR", Trail: "\t"},
